@@ -7,6 +7,9 @@ let () =
   let handle : string list -> string = match level with
     | "codec" -> Lvl_codec.handle dbg
     | "builder" -> Lvl_builder.handle dbg
+    | "queue" -> Lvl_queue.handle dbg
+    | "timesync" -> Lvl_timesync.handle dbg
+    | "endpoint" -> Lvl_endpoint.handle dbg
     (* LEVELS: one line per level, keep this marker *)
     | _ -> (fun _ -> "badlevel") in
   (try
